@@ -6,7 +6,7 @@ from vlib import hx, unhx, case_line, show
 THEOREMS = ["C02_tables", "C02_strings_frame", "C02_bools_frame", "C02_all_strings_frame", "C02_pinned_refuted", "C02_volume_pinned_refuted",
             "C02_container_string_key_frame", "C02_container_list_key_frame", "C02_container_bool_key_frame", "C02_frame_example",
             "C02_image_string_key_frame", "C02_image_bool_key_frame", "C02_network_string_key_frame", "C02_network_bool_key_frame",
-            "C02_network_list_key_frame", "C02_pod_string_key_frame", "C02_pod_list_key_frame", "C02_pod_frame_example", "C02_network_frame_example", "C02_priority_table", "C02_container_command_shape", "C02_image_command_shape", "C02_network_command_shape", "C02_pod_command_shape", "C02_kube_command_shape", "C02_build_command_shape", "C02_volume_command_shape"]
+            "C02_network_list_key_frame", "C02_pod_string_key_frame", "C02_pod_list_key_frame", "C02_pod_frame_example", "C02_network_frame_example", "C02_priority_table", "C02_container_command_shape", "C02_image_command_shape", "C02_network_command_shape", "C02_pod_command_shape", "C02_kube_command_shape", "C02_build_command_shape", "C02_volume_command_shape", "C02_run_services_are_conversions", "C02_every_container_service_of_the_run"]
 
 VALUES = ["v", "a b", "x=y", "p:q", "c,d", "%n", "é", "it's", 'say "hi"', "back\\slash", "tab\there", "-dash", "$X", "a  b", "\U0001F600", "UPPER", "[br]", "#h"]
 SUBCOMMAND = {"container": ["run"], "pod": ["pod", "create"], "volume": ["volume", "create"], "network": ["network", "create"], "kube": ["kube", "play"],
